@@ -247,3 +247,495 @@ Proof.
   - destruct (handler_ext _ _ _ _ _ _ Hf) as [ext ->]. exists ext. reflexivity.
   - exfalso. apply (handler_nonempty byh min fuel (pred64 h) [b]); [discriminate | exact Hf].
 Qed.
+
+(* ================================================================== C22 round 2 additions *)
+
+(* the first n hash-linked ancestors of [start] (nearest first); shorter if the tree has no block
+   for a parent id *)
+Fixpoint ancestors (tree : index) (n : nat) (start : block) : list block :=
+  match n with
+  | O => []
+  | S n' => match tree (b_parent start) with
+            | None => []
+            | Some p => p :: ancestors tree n' p
+            end
+  end.
+
+Lemma chain_from_ancestors tree : forall l start,
+  chain_from tree start l <-> l = ancestors tree (length l) start.
+Proof.
+  induction l as [|b l IH]; intros start; cbn [length ancestors].
+  - split; [reflexivity | constructor].
+  - split.
+    + intros Hc. inversion Hc as [|s b' l' Hb Hl]; subst. rewrite Hb. f_equal. apply IH. exact Hl.
+    + intros He. destruct (tree (b_parent start)) as [p|] eqn:Hp; [|discriminate].
+      inversion He as [[Hbp Hl]]. subst p. constructor; [exact Hp|]. rewrite <- Hl. apply IH. exact Hl.
+Qed.
+
+Lemma ancestors_chain tree : forall n start, chain_from tree start (ancestors tree n start).
+Proof.
+  induction n as [|n IH]; intros start; cbn [ancestors]; [constructor|].
+  destruct (tree (b_parent start)) as [p|] eqn:Hp; [|constructor].
+  constructor; [exact Hp | apply IH].
+Qed.
+
+(* determinism of the ancestry: two hash-linked chains from the same block agree on their common
+   length *)
+Lemma chain_from_prefix tree : forall l1 start l2,
+  chain_from tree start l1 -> chain_from tree start l2 -> (length l1 <= length l2)%nat ->
+  l1 = firstn (length l1) l2.
+Proof.
+  induction l1 as [|b l1 IH]; intros start l2 H1 H2 Hlen; [reflexivity|].
+  destruct l2 as [|c l2]; [cbn in Hlen; lia|].
+  inversion H1 as [|s1 b1 l1' Hb1 Hl1]; subst. inversion H2 as [|s2 c2 l2' Hc2 Hl2]; subst.
+  rewrite Hb1 in Hc2. inversion Hc2; subst c. cbn [length firstn]. f_equal.
+  apply (IH b); [assumption | assumption | cbn in Hlen; lia].
+Qed.
+
+Lemma chain_from_app_inv tree : forall l1 l2 start,
+  chain_from tree start (l1 ++ l2) -> chain_from tree start l1 /\ chain_from tree (last l1 start) l2.
+Proof.
+  induction l1 as [|a l1 IH]; intros l2 start Hc; cbn [app] in Hc.
+  - split; [constructor | exact Hc].
+  - inversion Hc as [|s b l Hb Hl]; subst. destruct (IH _ _ Hl) as [H1 H2].
+    split; [constructor; assumption|].
+    destruct l1 as [|c l1]; [exact H2|].
+    change (last (a :: c :: l1) start) with (last (c :: l1) start).
+    rewrite (last_indep (c :: l1) start a); [exact H2 | discriminate].
+Qed.
+
+Lemma chain_from_app tree : forall l1 l2 start,
+  chain_from tree start l1 -> chain_from tree (last l1 start) l2 -> chain_from tree start (l1 ++ l2).
+Proof.
+  induction l1 as [|a l1 IH]; intros l2 start H1 H2; cbn [app]; [exact H2|].
+  inversion H1 as [|s b l Hb Hl]; subst. constructor; [assumption|]. apply IH; [assumption|].
+  destruct l1 as [|c l1]; [exact H2|].
+  rewrite (last_indep (c :: l1) a start); [exact H2 | discriminate].
+Qed.
+
+Lemma in_firstn_in {A} (n : nat) (l : list A) (x : A) : In x (firstn n l) -> In x l.
+Proof. intros H. rewrite <- (firstn_skipn n l). apply in_or_app. left. exact H. Qed.
+
+(* a chain that ends at the first block below min is unique *)
+Lemma below_last_unique tree min start l1 l2 :
+  chain_from tree start l1 -> chain_from tree start l2 ->
+  below_last min l1 -> below_last min l2 -> l1 = l2.
+Proof.
+  intros H1 H2 B1 B2.
+  assert (forall la lb, chain_from tree start la -> chain_from tree start lb ->
+            below_last min la -> below_last min lb -> (length la <= length lb)%nat -> la = lb) as Hgen.
+  { clear. intros la lb Ha Hb [la' [za [-> [Hza Hla]]]] [lb' [zb [-> [Hzb Hlb]]]] Hlen.
+    pose proof (chain_from_prefix tree _ _ _ Ha Hb Hlen) as Hp.
+    rewrite !app_length in *. cbn [length] in *.
+    destruct (Nat.eq_dec (length la') (length lb')) as [He|Hne].
+    - replace (length la' + 1)%nat with (length (lb' ++ [zb])) in Hp by (rewrite app_length; cbn [length]; lia).
+      rewrite firstn_all in Hp. exact Hp.
+    - exfalso. rewrite firstn_app in Hp.
+      replace (length la' + 1 - length lb')%nat with 0%nat in Hp by lia.
+      cbn [firstn] in Hp. rewrite app_nil_r in Hp.
+      assert (In za lb') as Hin.
+      { apply (in_firstn_in (length la' + 1)). rewrite <- Hp. apply in_or_app. right. left. reflexivity. }
+      apply Hlb in Hin. lia. }
+  destruct (Nat.le_ge_cases (length l1) (length l2)) as [Hle|Hle].
+  - apply Hgen; assumption.
+  - symmetry. apply Hgen; assumption.
+Qed.
+
+(* ---- the client with its full loop state exposed ---- *)
+Record cstate := mkCS { cs_min : Z; cs_last : block; cs_acc : list block; cs_reqs : list N; cs_closed : bool }.
+
+Section Client2.
+Variable R : Type.
+Variable parse : R -> option block.
+
+Fixpoint client_st (resps : list (resp R)) (min : Z) (last : block) (acc : list block) (reqs : list N) : cstate :=
+  if b_ts last <? min then mkCS min last acc reqs true
+  else match resps with
+       | [] => mkCS min last acc reqs false
+       | r :: rest =>
+           let reqs' := reqs ++ [pred64 (b_height last)] in
+           match r_blocks r with
+           | None => client_st rest (r_min r) last acc reqs'
+           | Some raws =>
+               let c := consume parse (r_min r) (b_parent last) raws last acc in
+               if snd c then mkCS (r_min r) (fst (fst c)) (snd (fst c)) reqs' true
+               else client_st rest (r_min r) (fst (fst c)) (snd (fst c)) reqs'
+           end
+       end.
+
+Lemma client_st_proj : forall resps min last acc reqs,
+  client parse resps min last acc reqs =
+  (cs_acc (client_st resps min last acc reqs), cs_closed (client_st resps min last acc reqs),
+   cs_reqs (client_st resps min last acc reqs)).
+Proof.
+  induction resps as [|r resps IH]; intros min last acc reqs; cbn [client client_st].
+  - destruct (b_ts last <? min); reflexivity.
+  - destruct (b_ts last <? min); [reflexivity|].
+    destruct (r_blocks r) as [raws|]; [|apply IH].
+    destruct (snd (consume parse (r_min r) (b_parent last) raws last acc)); [reflexivity | apply IH].
+Qed.
+
+Definition resume (s : cstate) (resps : list (resp R)) : cstate :=
+  if cs_closed s then s else client_st resps (cs_min s) (cs_last s) (cs_acc s) (cs_reqs s).
+
+(* running on r1 ++ r2 = running on r1, then (unless the channel was closed) on r2 *)
+Lemma client_st_app : forall r1 r2 min last acc reqs,
+  client_st (r1 ++ r2) min last acc reqs = resume (client_st r1 min last acc reqs) r2.
+Proof.
+  induction r1 as [|r r1 IH]; intros r2 min last acc reqs; cbn [app].
+  - unfold resume. cbn [client_st]. destruct (b_ts last <? min) eqn:E; cbn [cs_closed]; [|reflexivity].
+    destruct r2; cbn [client_st]; rewrite E; reflexivity.
+  - cbn [client_st]. destruct (b_ts last <? min); [reflexivity|].
+    destruct (r_blocks r) as [raws|]; [|apply IH].
+    destruct (snd (consume parse (r_min r) (b_parent last) raws last acc)); [reflexivity | apply IH].
+Qed.
+
+(* the state at loop head, when the channel is still open, is not below the minimum *)
+Lemma client_st_open : forall resps min last acc reqs,
+  cs_closed (client_st resps min last acc reqs) = false ->
+  b_ts (cs_last (client_st resps min last acc reqs)) <? cs_min (client_st resps min last acc reqs) = false.
+Proof.
+  induction resps as [|r resps IH]; intros min last acc reqs; cbn [client_st].
+  - destruct (b_ts last <? min) eqn:E; cbn [cs_closed cs_last cs_min]; [discriminate | intros _; exact E].
+  - destruct (b_ts last <? min) eqn:E; cbn [cs_closed]; [discriminate|].
+    destruct (r_blocks r) as [raws|]; [|apply IH].
+    destruct (snd (consume parse (r_min r) (b_parent last) raws last acc)); cbn [cs_closed]; [discriminate | apply IH].
+Qed.
+
+(* constant minimum *)
+Lemma client_st_min min : forall resps last acc reqs,
+  (forall r, In r resps -> r_min r = min) -> cs_min (client_st resps min last acc reqs) = min.
+Proof.
+  induction resps as [|r resps IH]; intros last acc reqs Hm; cbn [client_st].
+  - destruct (b_ts last <? min); reflexivity.
+  - destruct (b_ts last <? min); [reflexivity|].
+    rewrite (Hm r (or_introl eq_refl)).
+    assert (forall r', In r' resps -> r_min r' = min) as Hm' by (intros; apply Hm; right; assumption).
+    destruct (r_blocks r) as [raws|]; [|apply IH; exact Hm'].
+    destruct (snd (consume parse min (b_parent last) raws last acc)); [reflexivity | apply IH; exact Hm'].
+Qed.
+
+(* every emitted block was parsed from a raw of some response *)
+Definition from_resps (resps : list (resp R)) (b : block) : Prop :=
+  exists r raws raw, In r resps /\ r_blocks r = Some raws /\ In raw raws /\ parse raw = Some b.
+
+Lemma consume_parsed min : forall raws expected last acc b,
+  In b (snd (fst (consume parse min expected raws last acc))) ->
+  In b acc \/ exists raw, In raw raws /\ parse raw = Some b.
+Proof.
+  induction raws as [|raw raws IH]; intros expected last acc b; cbn [consume]; [cbn; tauto|].
+  destruct (parse raw) as [b0|] eqn:Hp; [|cbn; tauto].
+  destruct (negb (expected =? b_id b0)%N); [cbn; tauto|].
+  destruct (b_ts b0 <? min).
+  - cbn [snd fst]. intros Hin. apply in_app_or in Hin. destruct Hin as [Hin|[<-|[]]]; [left; exact Hin|].
+    right. exists raw. split; [left; reflexivity | exact Hp].
+  - intros Hin. apply IH in Hin. destruct Hin as [Hin|[raw' [Hr Hp']]].
+    + apply in_app_or in Hin. destruct Hin as [Hin|[<-|[]]]; [left; exact Hin|].
+      right. exists raw. split; [left; reflexivity | exact Hp].
+    + right. exists raw'. split; [right; exact Hr | exact Hp'].
+Qed.
+
+Lemma client_st_parsed : forall resps min last acc reqs b,
+  In b (cs_acc (client_st resps min last acc reqs)) -> In b acc \/ from_resps resps b.
+Proof.
+  induction resps as [|r resps IH]; intros min last acc reqs b; cbn [client_st].
+  - destruct (b_ts last <? min); cbn; tauto.
+  - destruct (b_ts last <? min); [cbn; tauto|].
+    assert (forall b, from_resps resps b -> from_resps (r :: resps) b) as Hmono.
+    { intros b0 [r0 [raws [raw [Hr H]]]]. exists r0, raws, raw. split; [right; exact Hr | exact H]. }
+    destruct (r_blocks r) as [raws|] eqn:Hrb.
+    + assert (forall b, In b (snd (fst (consume parse (r_min r) (b_parent last) raws last acc))) ->
+                        In b acc \/ from_resps (r :: resps) b) as Hc.
+      { intros b0 Hin. apply consume_parsed in Hin. destruct Hin as [Hin|[raw [Hraw Hp]]]; [left; exact Hin|].
+        right. exists r, raws, raw. split; [left; reflexivity | repeat split; assumption]. }
+      destruct (snd (consume parse (r_min r) (b_parent last) raws last acc)).
+      * cbn [cs_acc]. apply Hc.
+      * intros Hin. apply IH in Hin. destruct Hin as [Hin|Hin]; [apply Hc; exact Hin | right; apply Hmono; exact Hin].
+    + intros Hin. apply IH in Hin. destruct Hin as [Hin|Hin]; [left; exact Hin | right; apply Hmono; exact Hin].
+Qed.
+
+(* while the channel is open (constant minimum) nothing emitted is below the minimum *)
+Lemma client_st_open_ge min : forall resps last acc reqs,
+  (forall r, In r resps -> r_min r = min) ->
+  (forall b, In b acc -> min <= b_ts b) ->
+  cs_closed (client_st resps min last acc reqs) = false ->
+  forall b, In b (cs_acc (client_st resps min last acc reqs)) -> min <= b_ts b.
+Proof.
+  induction resps as [|r resps IH]; intros last acc reqs Hm Hacc; cbn [client_st].
+  - destruct (b_ts last <? min); cbn [cs_closed cs_acc]; [discriminate | intros _; exact Hacc].
+  - destruct (Z.ltb_spec (b_ts last) min) as [Hlt|Hge]; cbn [cs_closed]; [discriminate|].
+    rewrite (Hm r (or_introl eq_refl)).
+    assert (forall r', In r' resps -> r_min r' = min) as Hm' by (intros; apply Hm; right; assumption).
+    destruct (r_blocks r) as [raws|]; [|apply IH; assumption].
+    pose proof (consume_exact R parse min raws (b_parent last) last acc Hacc Hge) as Hc. cbn zeta in Hc.
+    destruct (snd (consume parse min (b_parent last) raws last acc)); cbn [cs_closed]; [discriminate|].
+    apply IH; [exact Hm' | exact (proj1 Hc)].
+Qed.
+
+Variable tree : index.
+Hypothesis ORACLE : forall r b, parse r = Some b -> tree (b_id b) = Some b.
+
+Lemma client_st_inv start : forall resps min last acc reqs,
+  InvC tree start last acc ->
+  InvC tree start (cs_last (client_st resps min last acc reqs)) (cs_acc (client_st resps min last acc reqs)).
+Proof.
+  induction resps as [|r resps IH]; intros min last acc reqs HI; cbn [client_st].
+  - destruct (b_ts last <? min); exact HI.
+  - destruct (b_ts last <? min); [exact HI|].
+    destruct (r_blocks r) as [raws|]; [|apply IH; exact HI].
+    pose proof (consume_inv R parse tree ORACLE (r_min r) start raws last acc HI) as HI'.
+    destruct (snd (consume parse (r_min r) (b_parent last) raws last acc)); [exact HI' | apply IH; exact HI'].
+Qed.
+
+(* ---- the prefix theorem ---- *)
+Lemma client_prefix start resps min :
+  let out := fst (fst (client parse resps min start [] [])) in
+  out = ancestors tree (length out) start /\
+  (forall b, In b out -> from_resps resps b /\ tree (b_id b) = Some b).
+Proof.
+  cbn zeta. split.
+  - apply chain_from_ancestors. apply (client_inv R parse tree ORACLE). split; [constructor | reflexivity].
+  - intros b Hin. rewrite client_st_proj in Hin. cbn [fst] in Hin.
+    apply client_st_parsed in Hin. destruct Hin as [[]|Hf]. split; [exact Hf|].
+    destruct Hf as [r [raws [raw [_ [_ [_ Hp]]]]]]. exact (ORACLE _ _ Hp).
+Qed.
+
+(* ---- exactness, both directions (constant minimum) ---- *)
+Lemma client_closed_iff start min resps :
+  (forall r, In r resps -> r_min r = min) -> min <= b_ts start ->
+  let out := fst (fst (client parse resps min start [] [])) in
+  (snd (fst (client parse resps min start [] [])) = true <-> below_last min out) /\
+  (snd (fst (client parse resps min start [] [])) = false -> forall b, In b out -> min <= b_ts b).
+Proof.
+  intros Hm Hs. cbn zeta. split; [split|].
+  - apply (client_exact R parse tree ORACLE min); [exact Hm | intros b [] | exact Hs].
+  - intros [l' [z [Heq [Hz _]]]].
+    destruct (snd (fst (client parse resps min start [] []))) eqn:Hc; [reflexivity|]. exfalso.
+    rewrite client_st_proj in Hc, Heq. cbn [fst snd] in Hc, Heq.
+    pose proof (client_st_open_ge min resps start [] [] Hm (fun b (H : In b []) => match H with end) Hc z) as Hge.
+    rewrite Heq in Hge. assert (In z (l' ++ [z])) as Hin by (apply in_or_app; right; left; reflexivity). specialize (Hge Hin). lia.
+  - intros Hc b Hin. rewrite client_st_proj in Hc, Hin. cbn [fst snd] in Hc, Hin.
+    exact (client_st_open_ge min resps start [] [] Hm (fun b (H : In b []) => match H with end) Hc b Hin).
+Qed.
+
+(* ---- progress and completion ---- *)
+(* response r answers the request made after the fault sequence [pre]: its first raw parses to the
+   block whose id is the parent id of the last block received so far *)
+Definition next_expected (start : block) (min : Z) (pre : list (resp R)) : N :=
+  b_parent (last (fst (fst (client parse pre min start [] []))) start).
+Definition serves (r : resp R) (expected : N) : Prop :=
+  exists raw rest b, r_blocks r = Some (raw :: rest) /\ parse raw = Some b /\ b_id b = expected.
+
+Lemma client_step_progress start min pre r :
+  (forall r', In r' (pre ++ [r]) -> r_min r' = min) -> min <= b_ts start ->
+  snd (fst (client parse pre min start [] [])) = false ->
+  serves r (next_expected start min pre) ->
+  exists b tail, b_id b = next_expected start min pre /\
+    fst (fst (client parse (pre ++ [r]) min start [] [])) =
+    fst (fst (client parse pre min start [] [])) ++ b :: tail.
+Proof.
+  intros Hm Hs Hopen [raw [rest [b [Hr [Hp Hid]]]]]. unfold next_expected in *.
+  rewrite !client_st_proj in *. cbn [fst snd] in *. rewrite client_st_app.
+  set (s := client_st pre min start [] []) in *.
+  unfold resume. rewrite Hopen.
+  pose proof (client_st_inv start pre min start [] [] (conj (cf_nil tree start) eq_refl)) as [_ Hl]. fold s in Hl.
+  rewrite <- Hl in Hid.
+  pose proof (client_st_open pre min start [] [] Hopen) as Hge. fold s in Hge.
+  destruct (client_progress R parse tree ORACLE r [] (cs_min s) (cs_last s) (cs_acc s) (cs_reqs s) raw rest b) as [tail Ht];
+    [lia | exact Hr | exact Hp | exact Hid |].
+  rewrite client_st_proj in Ht. cbn [fst] in Ht. exists b, tail. split; [rewrite <- Hl; exact Hid | exact Ht].
+Qed.
+
+(* [serving_run start min pre rest n]: in the fault sequence pre ++ rest, at least n of the
+   responses of [rest] answer the request they were sent for (the others are arbitrary faults) *)
+Inductive serving_run (start : block) (min : Z) : list (resp R) -> list (resp R) -> nat -> Prop :=
+| sr_nil pre : serving_run start min pre [] 0
+| sr_fault pre r rest n : serving_run start min (pre ++ [r]) rest n -> serving_run start min pre (r :: rest) n
+| sr_good pre r rest n : serves r (next_expected start min pre) ->
+    serving_run start min (pre ++ [r]) rest n -> serving_run start min pre (r :: rest) (S n).
+
+Lemma emitted_mono min start pre r :
+  exists ext, cs_acc (client_st (pre ++ [r]) min start [] []) = cs_acc (client_st pre min start [] []) ++ ext.
+Proof.
+  rewrite client_st_app. unfold resume. destruct (cs_closed (client_st pre min start [] [])).
+  - exists []. rewrite app_nil_r. reflexivity.
+  - destruct (client_ext R parse [r] (cs_min (client_st pre min start [] [])) (cs_last (client_st pre min start [] []))
+                (cs_acc (client_st pre min start [] [])) (cs_reqs (client_st pre min start [] []))) as [ext He].
+    rewrite client_st_proj in He. cbn [fst] in He. exists ext. exact He.
+Qed.
+
+Lemma closed_stable min start pre r :
+  cs_closed (client_st pre min start [] []) = true -> cs_closed (client_st (pre ++ [r]) min start [] []) = true.
+Proof. intros H. rewrite client_st_app. unfold resume. rewrite H. exact H. Qed.
+
+Lemma client_completes start min full :
+  chain_from tree start full -> below_last min full -> min <= b_ts start ->
+  forall pre rest n, serving_run start min pre rest n ->
+  (forall r, In r (pre ++ rest) -> r_min r = min) ->
+  (length full <= length (cs_acc (client_st pre min start [] [])) + n)%nat ->
+  cs_closed (client_st (pre ++ rest) min start [] []) = true.
+Proof.
+  intros Hfull Hbl Hs pre rest n Hrun.
+  induction Hrun as [pre | pre r rest n Hrun IH | pre r rest n Hserve Hrun IH]; intros Hm Hlen.
+  - rewrite app_nil_r in *. destruct (cs_closed (client_st pre min start [] [])) eqn:Hc; [reflexivity|]. exfalso.
+    pose proof (client_st_inv start pre min start [] [] (conj (cf_nil tree start) eq_refl)) as [Hch _].
+    pose proof (client_st_open_ge min pre start [] [] Hm (fun b (H : In b []) => match H with end) Hc) as Hge.
+    destruct Hbl as [l' [z [Heq [Hz _]]]].
+    assert (length full <= length (cs_acc (client_st pre min start [] [])))%nat as Hlen' by lia.
+    pose proof (chain_from_prefix tree _ _ _ Hfull Hch Hlen') as Hp.
+    assert (In z (cs_acc (client_st pre min start [] []))) as Hin.
+    { apply (in_firstn_in (length full)). rewrite <- Hp, Heq. apply in_or_app. right. left. reflexivity. }
+    apply Hge in Hin. lia.
+  - rewrite (app_assoc pre [r] rest : pre ++ r :: rest = (pre ++ [r]) ++ rest) in *. apply IH; [exact Hm|].
+    destruct (emitted_mono min start pre r) as [ext He]. rewrite He, app_length. lia.
+  - rewrite (app_assoc pre [r] rest : pre ++ r :: rest = (pre ++ [r]) ++ rest) in *.
+    destruct (cs_closed (client_st pre min start [] [])) eqn:Hc.
+    + pose proof (closed_stable min start pre r Hc) as Hc'.
+      rewrite client_st_app. unfold resume. rewrite Hc'. exact Hc'.
+    + apply IH; [exact Hm|].
+      destruct (client_step_progress start min pre r) as [b [tail [_ He]]].
+      * intros r' Hin. apply Hm. apply in_or_app. left. exact Hin.
+      * exact Hs.
+      * rewrite client_st_proj. exact Hc.
+      * exact Hserve.
+      * rewrite !client_st_proj in He. cbn [fst] in He. rewrite He, app_length. cbn [length]. lia.
+Qed.
+
+(* final form: a fault sequence containing at least |full| serving responses completes, and then
+   the emitted blocks are exactly [full] *)
+Lemma client_liveness start min full resps n :
+  chain_from tree start full -> below_last min full -> min <= b_ts start ->
+  (forall r, In r resps -> r_min r = min) ->
+  serving_run start min [] resps n -> (length full <= n)%nat ->
+  client parse resps min start [] [] = (full, true, snd (client parse resps min start [] [])).
+Proof.
+  intros Hfull Hbl Hs Hm Hrun Hlen.
+  pose proof (client_completes start min full Hfull Hbl Hs [] resps n Hrun Hm) as Hc.
+  cbn [app] in Hc. specialize (Hc ltac:(lia)).
+  pose proof (client_closed_iff start min resps Hm Hs) as [[Hex _] _].
+  rewrite client_st_proj in *. cbn [fst snd] in *.
+  rewrite Hc. f_equal. f_equal.
+  apply (below_last_unique tree min start); [|exact Hfull| apply Hex; exact Hc | exact Hbl].
+  exact (proj1 (client_st_inv start resps min start [] [] (conj (cf_nil tree start) eq_refl))).
+Qed.
+
+End Client2.
+
+(* ---- Syncer.Start: the blocks found locally are the nearest ancestors of the target ---- *)
+Lemma pop_walk_chain tree idx oldest head : sub idx tree ->
+  forall fuel parent acc l L c,
+  acc = rev l ++ [head] -> chain_from tree head l -> parent = last l head ->
+  (forall b, In b l -> oldest <= b_ts b) ->
+  pop_walk idx oldest fuel parent acc = (L, c) ->
+  exists l', L = rev l' ++ [head] /\ chain_from tree head l' /\
+             (c = false -> forall b, In b l' -> oldest <= b_ts b).
+Proof.
+  intros Hsub. induction fuel as [|f IH]; intros parent acc l L c Hacc Hch Hpar Hge Hpw; cbn [pop_walk] in Hpw.
+  - inversion Hpw; subst. exists l. repeat split; [assumption | intros _; exact Hge].
+  - destruct (b_height parent =? 0)%N.
+    + inversion Hpw; subst. exists l. repeat split; [assumption | intros _; exact Hge].
+    + destruct (idx (b_parent parent)) as [p|] eqn:Hp.
+      * apply Hsub in Hp.
+        assert (chain_from tree head (l ++ [p])) as Hch' by (apply chain_snoc; [exact Hch | rewrite <- Hpar; exact Hp]).
+        assert (p :: acc = rev (l ++ [p]) ++ [head]) as Hacc' by (rewrite rev_app_distr, Hacc; reflexivity).
+        destruct (Z.ltb_spec (b_ts p) oldest) as [Hlt|Hge'].
+        -- inversion Hpw; subst L c. exists (l ++ [p]). repeat split; [exact Hacc' | exact Hch' | discriminate].
+        -- apply (IH p (p :: acc) (l ++ [p]) L c Hacc' Hch'); [symmetry; apply last_snoc | | exact Hpw].
+           intros b Hin. apply in_app_or in Hin. destruct Hin as [Hin|[<-|[]]]; [apply Hge; exact Hin | exact Hge'].
+      * inversion Hpw; subst. exists l. repeat split; [assumption | intros _; exact Hge].
+Qed.
+
+Lemma hd_rev_last {A} (l : list A) (d : A) : hd d (rev l ++ [d]) = last l d.
+Proof.
+  induction l as [|a l IH] using rev_ind; [reflexivity|].
+  rewrite rev_app_distr, last_snoc. reflexivity.
+Qed.
+
+(* the blocks the syncer saves, together with the blocks it found locally, are the hash-linked
+   ancestors of the target, nearest first; on completion they end with the first one below the
+   minimum; what is tracked afterwards is what the local blocks gave plus the non-zero-expiry
+   items of the saved blocks *)
+Section Syncer.
+Variable R : Type.
+Variable parse : R -> option block.
+Variable tree : index.
+Hypothesis ORACLE : forall r b, parse r = Some b -> tree (b_id b) = Some b.
+
+Lemma syncer_spec idx w W target resps :
+  sub idx tree ->
+  let min := oldest_allowed W (b_ts target) in
+  let p := populate idx w W target in
+  let s := syncer parse idx w W target resps in
+  let saved := snd (fst (fst s)) in
+  exists local,
+    snd (fst p) = rev local ++ [target] /\
+    chain_from tree target (local ++ saved) /\
+    (forall b, In b saved -> from_resps R parse resps b /\ tree (b_id b) = Some b) /\
+    (forall x, em_has (seen (fst (fst (fst s)))) x = true <->
+               em_has (seen (fst (fst p))) x = true \/
+               exists b e, In b saved /\ In (x, e) (b_items b) /\ e <> 0) /\
+    (snd p = true -> saved = [] /\ snd (fst s) = true) /\
+    (snd p = false -> (forall r, In r resps -> r_min r = min) -> min <= b_ts target ->
+       (forall b, In b local -> min <= b_ts b) /\
+       (snd (fst s) = true <-> below_last min (local ++ saved)) /\
+       (snd (fst s) = false -> forall b, In b saved -> min <= b_ts b)).
+Proof.
+  intros Hsub. cbn zeta. unfold syncer, populate. cbn [fst snd].
+  destruct (pop_walk idx (oldest_allowed W (b_ts target)) (fuel_of target) target [target]) as [L c] eqn:Hpw.
+  cbn [fst snd].
+  destruct (pop_walk_chain tree idx (oldest_allowed W (b_ts target)) target Hsub (fuel_of target) target [target] [] L c
+              eq_refl (cf_nil _ _) eq_refl (fun b (H : In b []) => match H with end) Hpw) as [local [HL [Hch Hge]]].
+  exists local. split; [exact HL|].
+  destruct c; cbn [fst snd].
+  - rewrite app_nil_r. split; [exact Hch|]. split; [intros b []|]. split.
+    + intros x. split; [left; assumption | intros [H|[b [e [[] _]]]]; exact H].
+    + split; [intros _; split; reflexivity | discriminate].
+  - set (oldest := hd target L).
+    assert (oldest = last local target) as Hold by (unfold oldest; rewrite HL; apply hd_rev_last).
+    set (min := oldest_allowed W (b_ts target)) in *.
+    pose proof (client_prefix R parse tree ORACLE oldest resps min) as [Hanc Hparsed]. cbn zeta in Hanc, Hparsed.
+    split; [|split; [exact Hparsed|split; [apply historical_tracked|split; [discriminate|]]]].
+    + apply chain_from_app; [exact Hch|]. rewrite <- Hold. apply chain_from_ancestors. exact Hanc.
+    + intros _ Hm Ht. specialize (Hge eq_refl).
+      assert (min <= b_ts oldest) as Ho.
+      { rewrite Hold. destruct local as [|a local] using rev_ind; [exact Ht|].
+        rewrite last_snoc. apply Hge. apply in_or_app. right. left. reflexivity. }
+      pose proof (client_closed_iff R parse tree ORACLE oldest min resps Hm Ho) as [Hiff Hopen]. cbn zeta in Hiff, Hopen.
+      split; [exact Hge|]. split; [|exact Hopen].
+      rewrite Hiff. split.
+      * intros [l' [z [Heq [Hz Hl']]]]. exists (local ++ l'), z. split; [rewrite Heq, app_assoc; reflexivity|].
+        split; [exact Hz|]. intros b Hin. apply in_app_or in Hin. destruct Hin as [Hin|Hin]; [apply Hge | apply Hl']; exact Hin.
+      * intros [l' [z [Heq [Hz Hl']]]].
+        destruct (fst (fst (client parse resps min oldest [] []))) as [|s0 sv] eqn:Hsv using rev_ind.
+        -- exfalso. rewrite app_nil_r in Heq. assert (In z local) as Hin by (rewrite Heq; apply in_or_app; right; left; reflexivity).
+           apply Hge in Hin. lia.
+        -- clear IHsv. rewrite app_assoc in Heq. apply app_inj_tail in Heq. destruct Heq as [Heq ->].
+           exists sv, z. split; [reflexivity|]. split; [exact Hz|].
+           intros b Hin. apply Hl'. rewrite <- Heq. apply in_or_app. right. exact Hin.
+Qed.
+End Syncer.
+
+(* ---- F-22: once genesis has been received and genesis.ts >= min, the client never completes ---- *)
+Definition f22_genesis : block := mkB 10 0 0 5 [(7%N, 9)].
+Definition f22_start : block := mkB 11 10 1 6 [].
+Definition f22_tree : index := tree_of [f22_genesis; f22_start].
+Definition f22_parse (_ : unit) : option block := Some f22_genesis.
+Definition f22_serve : resp unit := mkResp 2 (Some [tt]).
+
+Lemma f22_oracle : forall r b, f22_parse r = Some b -> f22_tree (b_id b) = Some b.
+Proof. intros r b H. inversion H; subst. reflexivity. Qed.
+
+Lemma f22_never_completes : forall resps : list (resp unit),
+  (forall r, In r resps -> r_min r = 2) ->
+  client f22_parse (f22_serve :: resps) 2 f22_start [] [] =
+    ([f22_genesis], false, 0%N :: repeat (two64 - 1)%N (length resps)).
+Proof.
+  intros resps Hm. cbn [client]. change (b_ts f22_start <? 2) with false. cbv iota.
+  change (r_blocks f22_serve) with (Some [tt]). cbv iota.
+  change (consume f22_parse (r_min f22_serve) (b_parent f22_start) [tt] f22_start [])
+    with (f22_genesis, [f22_genesis], false). cbn [fst snd]. cbv iota.
+  rewrite (client_stuck unit f22_parse f22_tree f22_oracle f22_genesis [f22_genesis] eq_refl resps (r_min f22_serve)).
+  - reflexivity.
+  - cbn. lia.
+  - intros r Hin. rewrite (Hm r Hin). cbn. lia.
+Qed.
